@@ -14,7 +14,7 @@ Class(line, bad) ==
    IF c.shape \in {"collision", "samepath_twohosts"} /\ bad = {"resolves_to_same_content"} THEN "default_name_collision"
    ELSE IF c.shape = "sametail" /\ bad = {"resolves_to_same_content"} THEN "default_name_collision"       \* (whether it shows depends on how the root's own location is spelled)
    (* F-C16-2: references inside a callback that lives in an external file are not rewritten      *)
-   ELSE IF c.kind = "callbacks" /\ c.shape \in {"childlocal", "childlocal_shadow", "selfcycle", "mutualcycle"}     \* (a cycle through a callback is such a local reference)
+   ELSE IF c.kind = "callbacks" /\ c.shape \in {"childlocal", "childlocal_shadow", "childpair_local", "selfcycle", "mutualcycle"}     \* (a cycle through a callback is such a local reference)
            /\ bad \subseteq {"reloads_without_external_refs", "resolves_to_same_content"}
         THEN "callback_inner_refs_not_internalised"
    (* F-C16-3: a root component that is a whole-file reference to a header / response              *)
